@@ -34,7 +34,7 @@ package ipnisync
 // (API-boundary precondition; the in-repo caller is dagsync's SyncAdChain).
 //@ func (*Syncer).GetHead
 //@   property C03
-//@   requires s != nil && s.client != nil && ctx != nil && str(s.peerInfo.ID) != str("")
+//@   requires s != nil && s.client != nil && ctx != nil && nonnilelems(s.urls) && str(s.peerInfo.ID) != str("")
 //@   assumes str(cid.Undef.str) == str("")
 //@   ghost signer := 0
 //@   ghost validated := false
@@ -54,7 +54,7 @@ package ipnisync
 // successful comparison.
 //@ func (*Syncer).fetchBlock$1
 //@   property C02
-//@   requires s != nil && s.sync != nil && data != nil
+//@   requires s != nil && s.sync != nil && data != nil && ctx != nil
 //@   ghost eq := false
 //@   at call TeeReader#1: assert arg0 == data && arg1 == writer
 //@   at call SumStream#1: assert arg0 == tee && arg1 == mhTypeOf(str(c.str)) && arg2 == mhLenOf(str(c.str))
